@@ -118,7 +118,7 @@ let exc_name = function
   | EValidation _ -> "EXC:FailedValidation"
 
 let arch_of = function
-  | "json" -> { null_scope_is_mismatch = true; null_str = NullStrMismatch; first_index = nat_of_int 1 }
+  | "json" -> { null_scope_is_mismatch = false; null_str = NullStrSkip; first_index = nat_of_int 1 }   (* fixes a88d81b, cde2a3b *)
   | "mp" -> { null_scope_is_mismatch = false; null_str = NullStrSkip; first_index = nat_of_int 1 }
   | "csv" -> { null_scope_is_mismatch = true; null_str = NullStrEmpty; first_index = nat_of_int 0 }
   | _ -> raise (Syntax "arch")
